@@ -232,14 +232,24 @@ class Container:
         raise NotImplementedError
 
     def _checkForCrossReferences(self, memo=None):
-        if not self._checkedForCrossReferences:
-            if memo is None:
-                memo = set()
-            if any(x is self for x in memo):
-                raise ContainerException(f"cannot fill a tree that contains the same aggregator twice: {self}")
-            memo.add(self)
-            for child in self.children:
+        """Raise ContainerException if one aggregator object occupies two positions of this tree.
+
+        Called at the top of every ``fill``; the whole tree below ``self`` is walked once, before its first fill.
+        """
+        top = memo is None
+        if top:
+            if self._checkedForCrossReferences:
+                return
+            memo = set()
+        if id(self) in memo:
+            raise ContainerException(f"cannot fill a tree that contains the same aggregator twice: {self}")
+        memo.add(id(self))
+        # the value template of a sparse container is never filled itself, so it may be shared between containers
+        template = self.__dict__.get("value")
+        for child in self.children:
+            if child is not None and child is not template:
                 child._checkForCrossReferences(memo)
+        if top:
             self._checkedForCrossReferences = True
 
     def toJsonFile(self, fileName):
